@@ -192,8 +192,8 @@ pub fn svm_regression_c_spec() -> BuilderSpec {
         params: vec![
             eps_param(),
             kernel_param(),
-            // far inside = 1e3: eps-SVR with C = 1e10 needs minutes on 8 points
-            c_param("c", 1e3),
+            // far inside = 10: eps-SVR with C = 1e10 needs minutes on 8 points, C = 1e3 with the polynomial kernel many seconds
+            c_param("c", 10.0),
             Param {
                 name: "loss_eps",
                 // c_svr rustdoc (hyperparams.rs:191) gives no range for the loss epsilon; the guard reports a
@@ -226,7 +226,7 @@ pub fn svm_regression_nu_spec() -> BuilderSpec {
                     (Sym::OptL(Some(-0.0)), "neg_zero", U, false),
                     (Sym::OptL(Some(0.0)), "zero", U, false),
                     (Sym::OptL(Some(1.0)), "inside", V, false),
-                    (Sym::OptL(Some(1e3)), "far_inside", V, false),
+                    (Sym::OptL(Some(10.0)), "far_inside", V, false),
                 ],
             },
         ],
